@@ -91,7 +91,8 @@ def run_impl(sc):
 
         class Sched(ActionScheduler):
             def default_action(self, obj, time, new_state):
-                calls.append([obj.i, -1, to_ticks(time), new_state, 1])
+                # last field: the scheduler, asked during the action, is in the state the timetable prescribes (2: a stale state)
+                calls.append([obj.i, -1, to_ticks(time), new_state, 1 if self.current_state == new_state else 2])
 
         schedule = [(d / TICK, s) for d, s in sc['schedule']]
         if sc['cyclic'] is None:
@@ -103,7 +104,8 @@ def run_impl(sc):
 
         def make_override(k):
             def action(scheduler, obj, time, new_state):
-                calls.append([obj.i, k, to_ticks(time), new_state, 1 if scheduler is sched else 0])
+                calls.append([obj.i, k, to_ticks(time), new_state,
+                              0 if scheduler is not sched else (1 if scheduler.current_state == new_state else 2)])
             return action
         overrides = {0: make_override(0), 1: make_override(1)}
         steps = [0]
@@ -256,8 +258,10 @@ def monitor_c18(sc, obs):
     for c in calls:
         groups.setdefault((c[2], c[3]), []).append(c)
     for c in calls:
-        if c[4] != 1:
+        if c[4] == 0:
             bad('C18/wrong-scheduler-arg', 'an override action received a different scheduler object')
+        if c[4] == 2:
+            bad('C18/state-during-action', 'the action of object %d for the change to state %d at %d found the scheduler in another state' % (c[0], c[3], c[2]))
     upd_keys = Counter(got)
     for key, cs in groups.items():
         if key not in upd_keys:
